@@ -87,7 +87,102 @@ theorem w_newRender {ex : St → BOp → St} (hex : Wex ex) {a st : St} (h : W a
 theorem w_newAsync {ex : St → BOp → St} (hex : Wex ex) {a st : St} (h : W a st) (b : Nat) :
     W a (newAsync ex st b) := by
   unfold newAsync
-  exact w_finishAsync (w_addTask (w_runScoped hex (w_pushEager h _ _) _ _ _) _) _
+  have h1 : W a (setMutDepth (pushEager st b EffKind.async) (st.mutDepth + 1)) :=
+    W.same (st := pushEager st b EffKind.async) (w_pushEager h _ _) rfl rfl
+  have h2 := w_runScoped hex h1 st.effs.length (eagerOwner st) b
+  refine w_finishAsync (w_addTask ?_ _) _
+  exact W.same h2 rfl rfl
+
+theorem w_releaseOwner {a st : St} (h : W a st) (o : Nat) : W a (releaseOwner st o) := by
+  unfold releaseOwner
+  split
+  · exact h
+  · exact h.lift _
+
+theorem w_immEnd {a st : St} (h : W a st) (e rc : Nat) : W a (immEnd st e rc) := by
+  unfold immEnd
+  split
+  · exact h
+  · exact h.same rfl rfl
+
+theorem w_immRelease {a st : St} (h : W a st) (e : Nat) : W a (immRelease st e) := by
+  unfold immRelease
+  split
+  · split
+    · exact w_releaseOwner h _
+    · exact h
+  · exact h
+
+theorem w_immUpdate {ex : St → BOp → St} (hex : Wex ex) {a st : St} (h : W a st) (e : Nat) :
+    W a (immUpdate ex st e) := by
+  unfold immUpdate
+  split
+  · exact h
+  · next er _ =>
+    split
+    · exact h
+    · simp only
+      refine w_immRelease (w_immEnd ?_ _ _) _
+      refine W.same (st := runScoped ex _ e er.owner er.body) (w_runScoped hex ?_ _ _ _) rfl rfl
+      exact W.same (st := immBegin st e er) (h.same rfl rfl) rfl rfl
+
+theorem w_immScope {a st : St} (h : W a st) (e : Nat) : W a (immScope st e) := by
+  unfold immScope
+  split
+  · exact h
+  · split
+    · exact h.same rfl rfl
+    · refine w_releaseOwner ?_ _
+      exact h.same rfl rfl
+
+theorem w_newImm {ex : St → BOp → St} (hex : Wex ex) {a st : St} (h : W a st) (b : Nat) (sc mutf : Bool) :
+    W a (newImm ex st b sc mutf) := by
+  unfold newImm
+  simp only
+  split
+  · exact w_immScope (w_immUpdate hex (w_pushEager h _ _) _) _
+  · exact w_immUpdate hex (w_pushEager h _ _) _
+
+theorem w_markSub {ex : St → BOp → St} (hex : Wex ex) (a st : St) (s : Sub) (h : W a st) :
+    W a (markSub ex st s) := by
+  unfold markSub
+  split
+  · split
+    · split
+      · split
+        · refine w_immUpdate hex ?_ _
+          exact h.same rfl rfl
+        · exact h.same rfl rfl
+      · exact h
+    · exact h
+  · split
+    · split
+      · exact h.same rfl rfl
+      · exact h
+    · exact h
+
+theorem w_setSig {ex : St → BOp → St} (hex : Wex ex) {a st : St} (h : W a st) (s : Nat) (v : Int) :
+    W a (setSig ex st s v) := by
+  unfold setSig
+  split
+  · split
+    · exact w_foldl _ (w_markSub hex) _ (h.same rfl rfl)
+    · exact h
+  · exact h
+
+theorem w_writeSig {ex : St → BOp → St} (hex : Wex ex) {a st : St} (h : W a st) (s v : Nat) :
+    W a (writeSig ex st s v) := by
+  unfold writeSig
+  split
+  · exact h
+  · split
+    · split
+      · exact w_setSig hex h _ _
+      · exact h
+    · exact h
+
+theorem w_newTask {a st : St} (h : W a st) (b : Nat) (cancel : Bool) : W a (newTask st b cancel) := by
+  unfold newTask; exact h.same rfl rfl
 
 theorem w_runMemo {ex : St → BOp → St} (hex : Wex ex) {a st : St} (h : W a st) (m : Nat) :
     W a (runMemo ex st m) := by
@@ -142,6 +237,13 @@ theorem w_execWith {ex : St → BOp → St} (hex : Wex ex) : Wex (execWith ex) :
   | watch b hb imm => exact w_newEffect h b _
   | render b => exact w_newRender hex h b
   | async b => exact w_newAsync hex h b
+  | imm b sc mutf => exact w_newImm hex h b sc mutf
+  | write s v => exact w_writeSig hex h s v
+  | spawn b cancel =>
+    simp only [execWith]
+    split
+    · exact h
+    · exact w_newTask h b cancel
 
 theorem w_exec (f : Nat) : Wex (exec f) := by
   induction f with
@@ -196,8 +298,8 @@ theorem w_execHandlerTok {a st : St} (h : W a st) (hc : st.cur ≠ []) (op : BOp
     rw [readSig_toCore]; exact hc
   | cleanup tag =>
     refine ⟨h.same (by simp [execHandlerTok, hne]) rfl, ?_⟩
-    show (regCleanup st.toCore tag false).cur ≠ []
-    rw [(regCleanup_spec st.toCore tag false).2.2]; exact hc
+    show (regCleanup st.toCore tag false none).cur ≠ []
+    rw [(regCleanup_spec st.toCore tag false none).2.2]; exact hc
   | item v =>
     refine ⟨h.same (by simp [execHandlerTok, hne]) rfl, ?_⟩
     show (newStored st.toCore v).cur ≠ []
@@ -220,6 +322,9 @@ theorem w_execHandlerTok {a st : St} (h : W a st) (hc : st.cur ≠ []) (op : BOp
   | watch b hb imm => exact ⟨h, hc⟩
   | render b => exact ⟨h, hc⟩
   | async b => exact ⟨h, hc⟩
+  | imm b sc mutf => exact ⟨h, hc⟩
+  | write s v => exact ⟨h, hc⟩
+  | spawn b cancel => exact ⟨h, hc⟩
 
 theorem w_handlerFold (body : List BOp) {a st : St} (h : W a st) (hc : st.cur ≠ []) :
     W a (body.foldl execHandlerTok st) := by
@@ -251,7 +356,8 @@ theorem w_runHandler {a st : St} (ha : a.legacyWatch = false) (h : W a st) (e o 
 theorem w_endTask {a st : St} (h : W a st) (e : Nat) : W a (endTask st e) := by
   unfold endTask
   split
-  · exact h.same rfl rfl
+  · refine w_releaseOwner ?_ _
+    exact h.same rfl rfl
   · exact h
 
 theorem w_prepRun {a st : St} (h : W a st) (e : Nat) (er : EffRec) : W a (prepRun st e er) := by
@@ -273,21 +379,74 @@ theorem w_runEffect {a st : St} (ha : a.legacyWatch = false) (h : W a st) (e : N
   unfold runEffect
   exact w_afterRun ha (w_runScoped w_execBOp (w_prepRun h _ _) _ _ _) _ _
 
-theorem w_pollEff {a st : St} (ha : a.legacyWatch = false) (h : W a st) (e : Nat) : W a (pollEff st e) := by
-  unfold pollEff
+theorem w_runSeg {ex : St → BOp → St} (hex : Wex ex) {a st : St} (h : W a st) (e : Nat) (er : EffRec) :
+    W a (runSeg ex st e er) := by
+  unfold runSeg
+  simp only
+  have key : ∀ (body : List BOp) (S0 : St), W a S0 → ∀ S1 : St,
+      S1.watchHit = (List.foldl ex S0 body).watchHit → S1.legacyWatch = (List.foldl ex S0 body).legacyWatch →
+      W a S1 := fun body S0 h0 S1 h1 h2 => (w_foldl _ hex body h0).same h1 h2
+  refine key _ _ ?_ _ rfl rfl
+  exact h.same rfl rfl
+
+theorem w_finishTask {a st : St} (h : W a st) (e : Nat) : W a (finishTask st e) := by
+  unfold finishTask
+  split
+  · refine w_releaseOwner ?_ _
+    exact h.same rfl rfl
+  · exact h
+
+theorem w_afterSeg {a st : St} (h : W a st) (e : Nat) : W a (afterSeg st e) := by
+  unfold afterSeg
+  split
+  · split
+    · exact w_finishTask h _
+    · exact h.same rfl rfl
+  · exact h
+
+theorem w_pollTask {a st : St} (h : W a st) (e : Nat) (er : EffRec) : W a (pollTask st e er) := by
+  unfold pollTask
+  split
+  · exact w_finishTask h _
+  · refine w_afterSeg (w_runSeg w_execBOp ?_ _ _) _
+    exact h.same rfl rfl
+
+theorem w_pollIter {a st : St} (ha : a.legacyWatch = false) (h : W a st) (e : Nat) : W a (pollIter st e) := by
+  unfold pollIter
   split
   · exact h
   · split
     · exact h
     · split
-      · exact w_endTask h _
+      · exact w_pollTask h _ _
       · split
-        · exact h.same rfl rfl
+        · exact w_endTask h _
         · split
           · exact h.same rfl rfl
           · split
-            · exact w_endTask (w_runEffect ha h _ _) _
-            · exact w_runEffect ha h _ _
+            · exact h.same rfl rfl
+            · split
+              · exact w_endTask (w_runEffect ha h _ _) _
+              · exact w_runEffect ha h _ _
+
+theorem w_rewake {a st : St} (h : W a st) (e : Nat) : W a (rewake st e) := by
+  unfold rewake
+  split
+  · exact h.same rfl rfl
+  · exact h
+
+theorem w_pollLoop (n : Nat) {a st : St} (ha : a.legacyWatch = false) (h : W a st) (e : Nat) :
+    W a (pollLoop n st e) := by
+  induction n generalizing st with
+  | zero => exact h
+  | succ n ih =>
+    simp only [pollLoop]
+    split
+    · exact w_rewake (ih (w_pollIter ha h e)) e
+    · exact w_pollIter ha h e
+
+theorem w_pollEff {a st : St} (ha : a.legacyWatch = false) (h : W a st) (e : Nat) : W a (pollEff st e) :=
+  w_pollLoop _ ha h e
 
 theorem w_pollNth {a st : St} (ha : a.legacyWatch = false) (h : W a st) (i : Nat) : W a (pollNth st i) := by
   unfold pollNth
@@ -305,32 +464,11 @@ theorem w_runIdle (n : Nat) {a st : St} (ha : a.legacyWatch = false) (h : W a st
     · exact h
     · exact ih (w_pollNth ha h _)
 
-theorem w_markSub (a st : St) (s : Sub) (h : W a st) : W a (markSub st s) := by
-  unfold markSub
-  split
-  · split
-    · split
-      · exact h.same rfl rfl
-      · exact h
-    · exact h
-  · split
-    · split
-      · exact h.same rfl rfl
-      · exact h
-    · exact h
-
-theorem w_setSig {a st : St} (h : W a st) (s : Nat) (v : Int) : W a (setSig st s v) := by
-  unfold setSig
-  split
-  · split
-    · exact w_foldl _ w_markSub _ (h.same rfl rfl)
-    · exact h
-  · exact h
-
 theorem w_dropHandle (a st : St) (hd : Nat) (h : W a st) : W a (dropHandle st hd) := by
   unfold dropHandle
   split
-  · exact h.same rfl rfl
+  · refine w_releaseOwner ?_ _
+    exact h.same rfl rfl
   · exact h
 
 theorem w_runWc {a st : St} (h : W a st) (o b : Nat) : W a (runWc st o b) := by
@@ -348,7 +486,13 @@ theorem w_disposeEff {a st st' : St} (h : W a st) {i : Nat} (hd : disposeEff st 
   split at hd
   · split at hd
     · simp only [Option.some.injEq] at hd; subst hd; exact h.same rfl rfl
-    · simp only [Option.some.injEq] at hd; subst hd; exact h.same rfl rfl
+    · split at hd
+      · cases hd
+      · split at hd
+        · simp only [Option.some.injEq] at hd; subst hd
+          refine w_releaseOwner ?_ _
+          exact h.same rfl rfl
+        · simp only [Option.some.injEq] at hd; subst hd; exact h.same rfl rfl
   · cases hd
 
 theorem w_stepOp {a st st' : St} {op : Op} (ha : a.legacyWatch = false) (h : W a st)
@@ -409,7 +553,7 @@ theorem w_stepOp {a st st' : St} {op : Op} (ha : a.legacyWatch = false) (h : W a
   | set s v =>
     simp only [stepOp] at hop
     split at hop
-    · simp only [Option.some.injEq] at hop; subst hop; exact w_setSig h _ _
+    · simp only [Option.some.injEq] at hop; subst hop; exact w_setSig w_execBOp h _ _
     · cases hop
   | pause hh =>
     simp only [stepOp] at hop
